@@ -291,7 +291,9 @@ func (fc *FnCtx) doBuiltin(res ssa.Value, b *ssa.Builtin, c *ssa.CallCommon, in 
 			acc = ite(fmt.Sprintf("(%s %s %s)", op, acc, x), acc, x)
 		}
 		setRes(mkVal(res.Type(), []string{acc}))
-	case "delete", "clear", "print", "println", "close":
+	case "delete":
+		fc.mapDelete(c)
+	case "clear", "print", "println", "close":
 	case "panic":
 		if fc.con == nil || !fc.con.MayPanic {
 			fc.oblige("unreach", "panic", "false", pos, nil)
@@ -483,6 +485,7 @@ func (fc *FnCtx) mapInvAssume(x *ssa.Lookup) {
 		lo, hi, ft := fieldRange(x.Type(), 0)
 		val = mkVal(ft, v.C[lo:hi])
 		okc := v.C[hi]
+		_ = lo
 		env := &Env{fc: fc, heap: &fc.cur, old: &fc.entry, bound: map[string]Val{"v": val}, lookup: func(string) (Val, bool) { return Val{}, false }}
 		fc.assert(implies(okc, fc.evalBool(mi.E, env)))
 		return
